@@ -33,7 +33,7 @@ def run_property(prop, tier, seed, replay):
         if "trace" not in body:
             print("replay names a proof obligation / correspondence, no input: %s" % body.get("what"))
             return 1
-        d = replay_trace(body["trace"], work, "replay")
+        d = replay_trace(body["trace"], work, "replay", body.get("profile", "seq"))
         if d is None:
             print("replay: implementation and model agree on this input")
             return 0
@@ -98,10 +98,12 @@ def run_property(prop, tier, seed, replay):
     seen = set()
     for d in diffs[:5]:
         tag, cid, trace_lines, idx, il, ml = d
+        profile = "conn" if tag.startswith("conn_") else "seq"
         with BuildLock():
-            small = minimize(trace_lines, work)
+            small = minimize(trace_lines, work, profile)
         relevant, kind = classify(prop, cfg, il, ml)
-        body = {"what": "implementation and model disagree (seq correspondence, suite %s, case %s)" % (tag, cid),
+        body = {"what": "implementation and model disagree (%s correspondence, suite %s, case %s)" % (profile, tag, cid),
+                "profile": profile,
                 "first_difference": {"observation_index": idx, "implementation": il, "model": ml, "kind": kind},
                 "trace": small, "theorems": names}
         key = json.dumps(small)
